@@ -30,8 +30,9 @@ position — the body / elif / else of an `if`, body / handlers / else / finally
 `for` and `while`, nested up to four deep — in the target and in followed modules (block corpus: every position x
 target / followed import, in-process and through the CLI; half of the random projects). Python executes an import
 wherever it stands at module level, so every one of them is an edge for the oracle; the order in which
-RootContextBuilder registers them (try: handlers last) is the Lean model `Blocks.regL`. Statement classes the
-builder has no visit_ method for (`match`, `try/except*`, a class body) are generated as well (known findings).
+RootContextBuilder registers them (try / try-except*: handlers last; match: the case bodies in order — descended
+since /repo 6e8e4cc) is the Lean model `Blocks.regL`. A class body — the builder's visit_ClassDef does not descend
+into it — is generated as well (known finding `:class-body`).
 WHICH pyproject.toml applies is part of the case: nested project roots (`nested:*` channels: an inner
 pyproject.toml with [tool.rattr] at the working directory, its parent or grand-parent, below a `.git` / `.hg` /
 `.svn` / `.git` file / another project's pyproject.toml with a different level and the pattern '.*'; and the
@@ -168,14 +169,19 @@ def closure(imports_of, target_imps, permitted):
 #   if      body, elif*, else?          for / while   body, else?          with   body
 #   try     body, except*, else?, finally?   (an except or a finally; else only with an except)
 #   trystar body, except+, else?, finally?   (`except*`)      match  case+      class  body
-# DESCENDED kinds are those RootContextBuilder has a visit_ method for (Tie A `tieA_block_visitors`);
-# the harness' mirror of the ORDER in which rattr registers (try: body, else, finally, handlers) is
-# cross-checked with the Lean model `Blocks.regL` on every case; the ORACLE's edges are all written ones.
+# DESCENDED kinds are those RootContextBuilder has a descending visit_ method for (Tie A `tieA_block_visitors`;
+# `match` and `try/except*` since /repo 6e8e4cc); the harness' mirror of the ORDER in which rattr registers
+# (try and try-star: body, else, finally, handlers; match: the case bodies in order) is cross-checked with the
+# Lean model `Blocks.regL` on every case; the ORACLE's edges are all written ones.
 BLOCK_PARTS = {"if": ("body", "elif*", "else?"), "for": ("body", "else?"), "while": ("body", "else?"),
                "with": ("body",), "try": ("body", "except*", "else?", "finally?"),
                "trystar": ("body", "except+", "else?", "finally?"), "match": ("case+",), "class": ("body",)}
-DESCENDED_KINDS = ("if", "for", "while", "with", "try")
-OPAQUE_KINDS = {"trystar": "try-star", "match": "match", "class": "class-body"}
+DESCENDED_KINDS = ("if", "for", "while", "with", "try", "trystar", "match")
+OPAQUE_KINDS = {"class": "class-body"}          # statement classes without a DESCENDING visit_ method
+# descended since 6e8e4cc (known findings :match / :try-star, status fixed): by construction of the position
+# the oracle still NAMES these classes when a module reachable only through an import inside one of them is
+# not analysed, so that a regression is reported under the signature of the fixed finding
+FIXED_KINDS = {"trystar": "try-star", "match": "match"}
 CONDS = ["__debug__", "len('ab') == 2", "not __debug__", "0", "1"]
 
 
@@ -226,13 +232,14 @@ def written_order(items):
 
 def registered_order(items):
     """The statements RootContextBuilder.register_stmts reaches, in ITS order (harness mirror of the Lean
-    model `Blocks.regL`, cross-checked per case): if / for / while / with: the parts in order; try: body,
-    else, finally, then the handlers; a statement class without a visit_ method: nothing."""
+    model `Blocks.regL`, cross-checked per case): if / for / while / with / match: the parts in order; try and
+    try-star: body, else, finally, then the handlers; a statement class without a descending visit_ method
+    (a class body): nothing."""
     out = []
     for it in items:
         if isinstance(it, int):
             out.append(it)
-        elif it["k"] == "try":
+        elif it["k"] in ("try", "trystar"):
             by = lambda lab: [x for l, sub in it["parts"] if l == lab for x in registered_order(sub)]
             out += by("body") + by("else") + by("finally") + by("except")
         elif it["k"] in DESCENDED_KINDS:
@@ -252,14 +259,17 @@ def positions(items, prefix=""):
     return out
 
 
-def opaque_of(pos):
-    """The statement classes on the path of a position that have no visit_ method (by name)."""
-    return sorted({OPAQUE_KINDS[p.split(".")[0]] for p in pos.split("/") if p.split(".")[0] in OPAQUE_KINDS})
+def opaque_of(pos, table=None):
+    """The statement classes on the path of a position that have no descending visit_ method (by name);
+    `table`: another kind -> label table (FIXED_KINDS)."""
+    table = OPAQUE_KINDS if table is None else table
+    return sorted({table[p.split(".")[0]] for p in pos.split("/") if p.split(".")[0] in table})
 
 
 def lean_tree(items, leaves):
     """The tree as the Lean model takes it (`Blocks.Blk`): a number = one written import symbol; `if` with
-    elif parts = nested ifs (as in `ast`); for / while = loop; the handlers of a try concatenated."""
+    elif parts = nested ifs (as in `ast`); for / while = loop; the handlers of a try / try-star concatenated;
+    the case bodies of a match concatenated."""
     out = []
     for it in items:
         if isinstance(it, int):
@@ -282,8 +292,10 @@ def lean_tree(items, leaves):
             out.append({"k": "loop", "a": sub("body"), "b": sub("else")})
         elif k == "with":
             out.append({"k": "with", "a": sub("body")})
-        elif k == "try":
+        elif k in ("try", "trystar"):
             out.append({"k": "try", "a": sub("body"), "b": sub("except"), "c": sub("else"), "d": sub("finally")})
+        elif k == "match":
+            out.append({"k": "match", "a": sub("case")})
         else:
             out.append({"k": "opaque", "a": [x for _, s_ in it["parts"] for x in lean_tree(s_, leaves)]})
     return out
@@ -1028,7 +1040,7 @@ BLOCK_TEMPLATES = {
         _blk("if", ("body", []), ("elif", [_blk("if", ("body", [0]), ("else", [1]))]))])), 2],
     "nested:if-else/try-finally/while-else": lambda: [_blk("if", ("body", [0]), ("else", [
         _blk("try", ("body", []), ("finally", [_blk("while", ("body", [1]), ("else", [2]))]))]))],
-    # statement classes RootContextBuilder has no visit_ method for
+    # match / try-except* (descended since 6e8e4cc) and a class body (no descending visit_ method)
     "match": lambda: [_blk("match", ("case", [0]), ("case", [1])), 2],
     "trystar": lambda: [_blk("trystar", ("body", [0]), ("except", [1])), 2],
     "class": lambda: [0, _blk("class", ("body", [1])), 2],
@@ -1620,11 +1632,13 @@ def written_syms(case, rel):
     return (case.get("written") or {}).get(rel) or case["symbols"][rel]
 
 
-def oracle_reach(case, only_descended=False):
+def oracle_reach(case, only_descended=False, without=None):
     """The property's closure over every import statement written at module level (block positions
     included: Python may execute each of them). `only_descended`: without the statements that stand inside
-    a statement class RootContextBuilder has no visit_ method for (by construction of the position)."""
-    keep = (lambda s: not opaque_of(s.get("pos", "top"))) if only_descended else (lambda s: True)
+    a statement class RootContextBuilder has no descending visit_ method for (by construction of the
+    position); `without`: a kind table — without the statements inside those classes."""
+    table = without if without is not None else (OPAQUE_KINDS if only_descended else {})
+    keep = lambda s: not opaque_of(s.get("pos", "top"), table)
     imports_of = {}
     for n, i in case["names"].items():
         if i["file"] is not None:
@@ -1633,12 +1647,13 @@ def oracle_reach(case, only_descended=False):
     return closure(imports_of, tgt, lambda n: permitted_indep(case, n))
 
 
-def lost_behind(case, want, lost):
-    """The statement classes without a visit_ method (by construction of the positions) inside which the
-    import statements stand that lead from the files of `want` (and the target) to the modules `lost`."""
+def lost_behind(case, want, lost, table=None):
+    """The statement classes of `table` (default: those without a descending visit_ method; by construction of
+    the positions) inside which the import statements stand that lead from the files of `want` (and the target)
+    to the modules `lost`."""
     files = {tgt_key(case)} | {file_of(case, n) for n in want if file_of(case, n)}
     return sorted({k for rel in files for s in written_syms(case, rel)
-                   if s["intended"] in lost for k in opaque_of(s.get("pos", "top"))})
+                   if s["intended"] in lost for k in opaque_of(s.get("pos", "top"), table)})
 
 
 # ------------------------------------------------------------------ judge
@@ -1699,6 +1714,7 @@ def judge(case, obs):
     lvl = case["level"]
     want = oracle_reach(case)
     want_desc = oracle_reach(case, only_descended=True)
+    want_old = oracle_reach(case, without={**OPAQUE_KINDS, **FIXED_KINDS})      # what was reached before 6e8e4cc
     got = obs["keys"]
     gotset = set(got)
     for n in got:
@@ -1735,9 +1751,13 @@ def judge(case, obs):
         elif mis is not None:
             sig = "module-misclassified:" + mis + ":not-analysed"
         elif n not in want_desc and lost_behind(case, want, want - want_desc):
-            # by construction every chain of imports to it passes a statement inside match / try-star / class body
+            # by construction every chain of imports to it passes a statement inside a class body
             sig = "permitted-module-not-analysed:reachable-only-through-imports-inside:" \
                   + "+".join(lost_behind(case, want, want - want_desc))
+        elif n not in want_old and lost_behind(case, want_desc, want_desc - want_old, FIXED_KINDS):
+            # … inside a match / try-except* statement (the fixed findings; descended since 6e8e4cc)
+            sig = "permitted-module-not-analysed:reachable-only-through-imports-inside:" \
+                  + "+".join(lost_behind(case, want_desc, want_desc - want_old, FIXED_KINDS))
         else:
             sig = f"permitted-{kind_indep(case, n)}-module-not-analysed"
         out.append({"signature": sig, "module": n,
